@@ -122,7 +122,7 @@ def absorbing(step, pred: str, name: str = ""):
     LEMMAS.append(AbsorbingLemma(fold=step.__name__, pred=pred, name=name or f"{step.__name__}:absorbing[{pred}]"))
 
 
-def uninterp(name: str, arg_kinds: list, res_kind: str, native=None):
+def uninterp(name: str, arg_kinds: list, res_kind: str, native=None, spec_name=None):
     """Uninterpreted specification function (deterministic, otherwise unconstrained): stands for a
     behaviour that is specified elsewhere (e.g. "the text the library edit returns")."""
     import z3
@@ -146,6 +146,6 @@ def uninterp(name: str, arg_kinds: list, res_kind: str, native=None):
             raise NotImplementedError(f"uninterpreted spec function {name} has no native reading")
         return native(*args)
 
-    py.__name__ = name
-    SPECS[name] = Spec(name=name, kind="z3", py=py, z3fn=z3fn, globals={})
+    py.__name__ = spec_name or name
+    SPECS[spec_name or name] = Spec(name=spec_name or name, kind="z3", py=py, z3fn=z3fn, globals={})
     return py
